@@ -198,6 +198,14 @@ def check_case(case) -> Outcome:
             if d["labels"] != g["labels"]:
                 out.violate(f"transform-output-differs:{tag}", f"{kind} (hash seed {hs}, {spec}): feature {f}")
                 break
+            if "cross_labels" in d:
+                out.label("cross-frame-compared")
+                # the variant plants the same cells in the columns it shares with the reference (same fitted
+                # orders => same default groups); columns it does not own stay as they are for it
+                if "cross_labels" in g and d["cross_labels"] != g["cross_labels"]:
+                    pairs = [(i, a, b) for i, (a, b) in enumerate(zip(d["cross_labels"], g["cross_labels"])) if a != b][:3]
+                    out.violate(f"cross-frame-output-differs:{tag}", f"{kind} (hash seed {hs}, {spec}): feature {f}: rows {pairs} (reference vs variant) on a frame holding values of other columns' vocabularies")
+                    break
     if len(orders_seen) >= 2:
         out.label("several-feature-iteration-orders")
     kinds = {f["kind"] for f in case["features"]}
